@@ -96,6 +96,17 @@ fn main() {
             }
         }
     }));
+    // the same on un-quotiented presentations of strict diagrams: every node occurrence a node of its own, chained by
+    // pending unifications (the shape of every raw result of lax composition)
+    let xs = if quick { Spec::open(2, 2, 2, 2, 1, 1, 1) } else { Spec::open(3, 2, 2, 2, 1, 1, 1) };
+    let xu = xs.universe();
+    ctx.run_slice(Slice::new(format!("pending-unifications-exploded[{} x {} functors]", xs.name(), tfp.len()), xu.count(), |i, loc| {
+        let l = ohmc_core::plain::PLax::exploded(&xu.get_open(i));
+        for tf in &tfp {
+            loc.more_cases(1);
+            check_pending::<B>(&l, *tf, loc);
+        }
+    }));
     let specsid = if quick { vec![Spec::open(3, 1, 2, 2, 2, 2, 2)] } else { Spec::family_3x2(2, 0, true) };
     for specid in specsid {
         let uid = specid.universe();
